@@ -1028,7 +1028,11 @@ func checkSplice(w *World, c *Check, pr *prover, rule string, f *ssa.Function) {
 			}
 			n++
 			key := fmt.Sprintf("%s:list-assign#%d", name, n)
-			if spliceShape(st.Val) {
+			if sl, isSl := unwrap(st.Val).(*ssa.Slice); isSl && isConstBound(sl.High) {
+				// a cut at a fixed position ((*l)[:0]) is not the removal of the entries that were recorded: whatever else
+				// sits in the list — nil entries, entries without an id, which the scan skips — goes with them
+				c.bad(rule, key, w.InstrPos(st), fmt.Sprintf("%s cuts the caller's list at a constant position (%s) instead of removing the recorded entries one by one: entries the scan skipped (nil, id-less) are dropped as well", name, shortVal(st.Val)))
+			} else if spliceShape(st.Val) {
 				c.ok(rule, key, w.InstrPos(st), "order-preserving splice / re-slice")
 			} else {
 				c.bad(rule, key, w.InstrPos(st), fmt.Sprintf("%s assigns the caller's list something other than the order-preserving splice append(s[:i], s[i+1:]...) or a re-slice", name))
@@ -1356,4 +1360,9 @@ func pointerArrayElems(addr ssa.Value) []ssa.Value {
 		}
 	}
 	return out
+}
+
+func isConstBound(v ssa.Value) bool {
+	k, ok := v.(*ssa.Const)
+	return ok && k.Value != nil
 }
